@@ -1,5 +1,6 @@
 (* C15: (c15 expand (("prefix" "ns") ...) "iri") -> ("expanded") | ()
         (c15 verdict (("prefix" "ns") ...) <ynode> <graph>) -> (ok (("level" "name" "focus" "message template") ...)) | error | unsupported
+        (c15 respelled (("prefix" "ns") ...) <ynode> <ynode>) -> 1 | 0   YamlRespell.respell_doc_b: same shape, compact IRIs spelled differently but expanding alike
         (c15 related <ynode> <ynode>) -> 1 | 0      YamlRewrite.related: the second tree is a key / free-list reordering of the first *)
 open Sexp
 open Model
@@ -23,5 +24,6 @@ let handle (args : t list) : t =
                                (List.sort_uniq compare (List.map (fun (((lv, n), f), m) -> (level_name lv, string_of_chars n, string_of_chars f, string_of_chars m)) l)))]
        | PError -> A "error"
        | PUnsupported -> A "unsupported")
+  | [A "respelled"; L c; y; y'] -> if respell_doc_b (ctx c) (ynode y) (ynode y') then A "1" else A "0"
   | [A "related"; y; y'] -> if related (ynode y) (ynode y') then A "1" else A "0"
   | _ -> raise (Parse_error "c15 op")
